@@ -550,6 +550,9 @@ def run(ck, tier):
     ck.guard(r4_transforms, ck, cx, builds)
     ck.guard(r6_header_keys_defined, ck, cx)
     ck.guard(r7_struct_codes_and_minimum, ck, cx)
+    ck.rule('R8', 'a packet handed whole to a fresh receiver enters its buffer byte for byte (shared with C06 R5/R7)')
+    from ..share import import_findings
+    import_findings(ck, 'C06', 'R8', ('R5', 'R7'), 'a packet that starts with such a byte (e.g. unit id 0 on RTU) is not delivered')
     ck.rule('R5', 'checksum comparison shape and CRC constants (shared with C07 R3)')
     sub = type(ck)(ck.pid, ck.tier)
     r3_shape(sub, cx)
